@@ -24,7 +24,10 @@ predict_num, num_ground_truth per label and threshold list, and `_sum_clear()`, 
 
 Oracle (independent of the model): the property text on the real outputs — same call, different
 prefixes, same result (vs a fresh manager and among repetitions); dataset and caller's estimate lists
-untouched after every operation; scene score = recomputation from `manager.frame_results` with own
+untouched after every operation (these snapshots, the fresh-manager comparison and the identity test of look-ups are the real-code
+side of the heap discipline of `PEval/Model/ManagerHeap.lean`: `heap_cells_unchanged`, `add_detection_history_free_heap`); every
+STORED frame result still holds the object results / ground truths it held right after its own add (`stored_results_stay_good`);
+scene score = recomputation from `manager.frame_results` with own
 pooling and fresh `MetricsScore`/`Map` objects; GT counts add up; one-frame scene = that frame's score;
 pooled AP invariant under a permuted insertion order (real manager run on the permuted order) when
 the pooled confidences are pairwise distinct.  Tracking: scene CLEAR = freshly constructed real
@@ -57,6 +60,20 @@ THEOREMS = [
         "scene_tracking_eq_pooled", "scene_tracking_eq_pooled_ops", "scene_tracking_single_frame",
         "scene_tracking_switches_sum_from", "scene_tracking_switches_sum", "scene_tracking_mota_weighted_mean",
         "scene_tracking_rename_invariant", "scene_tracking_rename_invariant_from",
+        # heap model (Model/ManagerHeap.lean, Properties/C13Heap.lean): references, explicit writes; each of these is FALSE for
+        # the F5 / estimate-write-back variants of the model (examples in C13Heap.lean)
+        "heap_cells_unchanged", "dataset_deref_unchanged", "estimates_deref_unchanged", "stored_results_stay_good",
+        "add_detection_history_free_heap", "add_same_values_same_result",
+        "add_tracking_last_only_heap", "add_tracking_same_last_heap", "last_object_results_after_add",
+        "add_tracking_two_step_heap", "add_tracking_first_heap",
+        "heap_refines_manager", "heap_refines_manager_from", "heap_scene_eq_manager_scene", "heap_scene_eq_pooled_ops",
+        # Manager.apOf is the AP of Model/AP.lean (Lemmas/ManagerAPLink.lean); order-independence for the real Ap
+        "manager_apOf_eq_AP_apOf", "pooled_real_ap_perm_invariant",
+        # Properties/C13Scene.lean: the pooling machine's scene score (concrete Manager.apOf) = the APs / APHs of AP.sceneMap
+        # (the C04 model of get_scene_result -> Map -> Ap); one-frame scene = AP.frameMap of that frame
+        "stateOfAP_score", "manager_scene_eq_AP_sceneMap", "manager_single_frame_eq_AP_frameMap",
+        # the heap machine with concrete tracking scores refines ManagerTracking.trun (Properties/C13Tracking.lean)
+        "heap_refines_tracking_machine", "heap_frame_tracking_depends_on_last_only",
     ]
 ]
 RULE = (
@@ -532,6 +549,9 @@ def run_impl(case):
             return pair[k]
 
         last_add = None
+        stored0 = []  # what every stored frame result held right after its own add (heap discipline: its cells are private)
+        stored_now = lambda fr: [[[U.h(x.estimated_object), U.h(x.ground_truth_object)] for x in fr.object_results],
+                                 [U.h(g) for g in fr.frame_ground_truth.objects]]
         for i, op in enumerate(ops):
             o = {"o": op["o"]}
             if op["o"] == "add":
@@ -572,6 +592,12 @@ def run_impl(case):
             if not o["frames_ok"]:
                 o["frames_now"] = [[f[0], f[1], [x[0] for x in f[2]]] for f in snap["frames"]]
             o["n_results"] = len(m.frame_results)
+            if op["o"] == "add":
+                stored0.append(stored_now(m.frame_results[-1]))
+            cur = [stored_now(fr) for fr in m.frame_results]
+            o["stored_ok"] = cur == stored0
+            if not o["stored_ok"]:
+                o["stored_diff"] = [j for j, (a, b) in enumerate(zip(cur, stored0)) if a != b][:3]
             outs.append(o)
         res = {"outs": outs, "dataset": [[f.unix_time, int(f.frame_name), [U.h(x) for x in f.objects]] for f in m.ground_truth_frames]}
         if case["task"] == "tracking":
@@ -880,6 +906,9 @@ def oracle(case, out):
             return f"{w}: the loaded dataset was modified: ground_truth_frames now {o.get('frames_now')}"
         if not o["ests_ok"]:
             return f"{w}: the caller's estimate list was modified"
+        if not o.get("stored_ok", True):
+            return (f"{w}: a stored frame result (frame_results{o.get('stored_diff')}) no longer holds the object results / ground "
+                    f"truths it held right after its own add_frame_result")
         if op["o"] == "add":
             # history independence: the same call on a fresh manager
             d = _same_det(o["st"], o["fresh"])
